@@ -163,7 +163,7 @@ func rankGen(rng *proto.RNG, tier string, shard, nshards int, w *bufio.Writer) {
 	// (ids in order of first use: the leaderboard is symmetric in the ids), scores 0..maxScore,
 	// for every cap 1..maxCap and both directions; the board is dumped after every operation.
 	type cfg struct{ capa, maxLen, maxScore int }
-	cfgs := []cfg{{1, 5, 2}, {2, 5, 2}, {3, 4, 3}, {4, 4, 2}}
+	cfgs := []cfg{{1, 6, 2}, {2, 5, 2}, {3, 5, 1}, {4, 4, 3}}
 	if tier == "thorough" {
 		cfgs = []cfg{{1, 7, 3}, {2, 6, 3}, {3, 6, 2}, {4, 5, 3}}
 	}
